@@ -406,6 +406,56 @@ def r9_3(ctx, fx):
     ctx.floor(rid, n, 7, "dimension-changing members")
 
 
+def r9_7(ctx):
+    from pplv import absint
+    rid = "R9.7"
+    ctx.rule(rid, "the complement of a constraint flips its strictness: linear_partition_aux adds to the remainder the part of the set that violates `c`, built from the same expression: the complement of `e > 0` is `e <= 0` and the complement of `e >= 0` is `e < 0`; with the strictness the wrong way round the pieces of a partition overlap on the hyperplane (or leave it out). The initialiser of the negated constraint is interpreted on the two kinds of inequality (equalities are split by the caller)")
+    fx = ctx.extract([F.driver_unit("domains.cc", file_re=r"Pointset_Powerset_templates\.hh")])
+    n = 0
+    for f in fx.functions:
+        if f.name != "linear_partition_aux" or not f.flag("pattern"):
+            continue
+        cn_ = f.params[0]["n"]
+        negs = [v for v in f.walk() if v["k"] == "var" and v.get("c") and "Constraint" in (v.get("t") or "") and v.get("n", "").startswith("neg")]
+        ctx.require(rid, len(negs) == 1, "linear_partition_aux: the negated constraint is no longer a single local named neg_*")
+        init = negs[0]["c"][-1]
+        for kind, want in (("STRICT", "<="), ("NONSTRICT", "<")):
+            def atom(e, env, it, kind=kind):
+                k = e["k"]
+                t = f.text(e).replace(" ", "")
+                if k in ("binop", "ocall") and e.get("op") in ("<", "<=", ">", ">=", "==") and "Constraint" in (e.get("t") or e.get("rt") or ""):
+                    r = f.deref(e["c"][-1])
+                    if r is not None and (f.text(r).strip() == "0" or [y for y in f.walk(r) if y["k"] == "int" and f.text(y).strip() == "0"]):
+                        return {e["op"]}
+                    return None
+                if k in ("call", "mcall") and t.startswith(cn_ + "."):
+                    cn = f.call_name(e).lstrip("~")
+                    if cn == "is_strict_inequality":
+                        return {kind == "STRICT"}
+                    if cn == "is_nonstrict_inequality":
+                        return {kind == "NONSTRICT"}
+                    if cn == "is_inequality":
+                        return {True}
+                    if cn == "is_equality":
+                        return {False}
+                if k in ("construct", "cast", "icast", "paren", "temp", "bind") and len(e.get("c", ())) == 1:
+                    return it.ev(e["c"][0], env)
+                return None
+            it = absint.CfgInterp(f, atom)
+            try:
+                got = it.ev(init, {})
+            except absint.Unknown as ex:
+                raise F.AnalysisBroken("R9.7: linear_partition_aux: %s — the interpretation does not know this form" % ex)
+            n += 1
+            inst = "linear_partition_aux: complement of a %s inequality" % kind.lower()
+            if got == {want}:
+                ctx.ok(rid, inst, f.where(negs[0]))
+            else:
+                ctx.violation(rid, inst, f.where(negs[0]), "the complement of `e %s 0` is built as `e %s 0`; it is `e %s 0`" % (">" if kind == "STRICT" else ">=", " or ".join(sorted(str(g) for g in got)), want))
+        break
+    ctx.floor(rid, n, 2, "kinds of inequality interpreted")
+
+
 def run(ctx):
     ctx.explanation = ("C09 structural clauses on Determinate<PSET> and Pointset_Powerset<C_Polyhedron|NNC_Polyhedron|Grid>: copy-on-write discipline, "
                        "uniform lifting of base operations to every disjunct, dimension bookkeeping; decides these clauses, not that reductions preserve the union")
@@ -418,3 +468,4 @@ def run(ctx):
     r9_4(ctx, fx)
     r9_5(ctx)
     r9_6(ctx, fx)
+    r9_7(ctx)
